@@ -228,3 +228,63 @@ def rst_close(sock):
         sock.setsockopt(socket.SOL_SOCKET, socket.SO_LINGER, struct.pack("ii", 1, 0))
     finally:
         sock.close()
+
+
+def simultaneous(srv, raws, settle=0.05):
+    """Open one connection per request first (so that the workers are parked in read()), then let forked senders - spinning
+    on the clock, not serialised by the interpreter lock - write all requests at the same instant; returns the responses.
+    On a freshly started server these are the process's very first requests: whatever is built or read lazily on first
+    use is built under contention."""
+    n = len(raws)
+    socks = []
+    for _ in range(n):
+        try:
+            socks.append(srv.connect(timeout=10))
+        except OSError:
+            socks.append(None)
+    time.sleep(settle)
+    go = time.monotonic() + 0.05
+    d = core.scratch("race-")
+    pids = []
+    for i in range(n):
+        pid = os.fork()
+        if pid == 0:
+            try:
+                buf = b""
+                if socks[i] is not None:
+                    while time.monotonic() < go:
+                        pass
+                    try:
+                        socks[i].sendall(raws[i])
+                        while True:
+                            ch = socks[i].recv(65536)
+                            if not ch:
+                                break
+                            buf += ch
+                    except OSError:
+                        pass
+                with open(os.path.join(d, "r%d" % i), "wb") as fh:
+                    fh.write(buf)
+            finally:
+                os._exit(0)
+        pids.append(pid)
+    for pid in pids:
+        try:
+            os.waitpid(pid, 0)
+        except OSError:
+            pass
+    res = []
+    for i in range(n):
+        try:
+            res.append(open(os.path.join(d, "r%d" % i), "rb").read())
+        except OSError:
+            res.append(b"")
+    import shutil
+    shutil.rmtree(d, ignore_errors=True)
+    for s in socks:
+        try:
+            if s is not None:
+                s.close()
+        except OSError:
+            pass
+    return res
